@@ -267,6 +267,11 @@ def run_case(case):
     if (i1 == i2) != same_src:
         obs["viols"].append({"sig": "C09/pair/" + ("merged" if i1 == i2 else "split"),
                              "detail": {"names": [n1 + suffix, n2 + suffix], "identifiers": [i1, i2], "source": text, "emitted": conv["out"][-300:]}})
+    # the value written under a name is read back under the same identifier
+    rd = assigns[-1].e
+    if rd[0] == "ref" and rd[1] != i1:
+        obs["viols"].append({"sig": "C09/pair/read-differs-from-write", "detail": {"name": n1 + suffix, "written_as": i1, "read_as": rd[1],
+                                                                            "source": text, "emitted": conv["out"][-300:]}})
     want = ("arr_" if arr else "") + canon(n1 + suffix).lower()
     if i1 != want:
         obs["viols"].append({"sig": "C09/pair/unexpected-identifier", "detail": {"name": n1 + suffix, "identifier": i1, "want": want}})
@@ -290,6 +295,20 @@ def cases(tier, seed):
         # longer spellings of the reserved two-letter names are the same Color BASIC variable
         for tail in ("X", "9", "XY"):
             yield {"kind": "name", "name": nm + tail, "init": False}
+    # the tool's own keyword table, and every shorter prefix of its entries, as names: each is either refused or treated
+    # like any other name (a word the grammar stops reserving must not lead a double life)
+    try:
+        from coco.b09 import grammar as _g
+        words = sorted({w for w in getattr(_g, "KEYWORDS", "").split("|") if w.isalpha()} |
+                       {k for t in ("FUNCTIONS", "STR_FUNCTIONS", "FUNCTIONS_TO_STATEMENTS", "FUNCTIONS_TO_STATEMENTS2", "STR_FUNCTIONS_TO_STATEMENTS")
+                        for k in getattr(_g, t, {}) if isinstance(k, str) and k.rstrip("$").isalpha()})
+    except Exception:  # noqa: BLE001
+        words = []
+    words = [w.rstrip("$") for w in words] + ["ERNO", "ERLIN", "TIMER", "MEM", "POS", "USR", "INKEY", "FN", "GO"]
+    for w in sorted(set(words)):
+        for suffix in ("", "$"):
+            yield {"kind": "pair", "names": [w, w[:2]], "suffix": suffix, "array": False, "keyword": True}
+            yield {"kind": "pair", "names": [w, w[:2]], "suffix": suffix, "array": True, "keyword": True}
     rng = random.Random(seed * 31 + 9)
     n = 1500 if tier == "quick" else 250000
     for i in range(n):
